@@ -232,6 +232,27 @@ def evaluate(j, identical, T, M, res: Result, case):
                 V('std-variant-vibration-amplitude-wrong', f'n={n}')
     except Exception as e:  # noqa: BLE001
         V(f'std-variant-raise-{type(e).__name__}', str(e))
+    # --- a list whose members differ in cell and temperature (independent runs): each member enters with ITS OWN
+    #     density and temperature, and the order of the list does not matter
+    try:
+        parts = traj.split(2)
+        k2, temp2 = 1.1, 450.0
+        other = concretise.make_trajectory(np.array(parts[1].positions), [str(s.symbol) for s in parts[1].species], M * k2, time_step=dt, temperature=temp2)
+        ownc = []
+        for p, Mp, tp in ((parts[0], M, 300.0), (other, M * k2, temp2)):
+            pos = np.array(p.positions)
+            stp = np.diff(pos, axis=0)
+            stp -= np.round(stp)
+            unp = np.concatenate([pos[:1], pos[:1] + np.cumsum(stp, axis=0)], axis=0)
+            ownc.append(E_CH**2 * 4 * own_D(unp, Mp, 3, dt) * (pos.shape[1] / (abs(np.linalg.det(Mp)) * ANG**3)) / (KB * tp))
+        for order in ((0, 1), (1, 0)):
+            lst = [(parts[0], other)[i] for i in order]
+            c = TrajectoryMetricsStd(lst).tracer_conductivity(z_ion=2, dimensions=3)
+            ev(2)
+            if not close(c.nominal_value, np.mean(ownc)) or not close(c.std_dev, np.std(ownc), 1e-8, 1e-30):
+                V('std-variant-tracer-conductivity-wrong-for-runs-with-different-cell-and-temperature', f'order {order}: {c.nominal_value}+-{c.std_dev} vs {np.mean(ownc)}+-{np.std(ownc)}')
+    except Exception as e:  # noqa: BLE001
+        V(f'std-variant-heterogeneous-raise-{type(e).__name__}', str(e))
     return tuple(key)
 
 
